@@ -28,7 +28,7 @@ STUB_DOC = {
     'start_limit_current.np.sqrt': 'fresh y>=0 with y*y==x; x<0 is a domain-event path (numpy returns NaN)',
     'gearpy.units.units.sin/cos/tan, helical_gear.atan': 'real libm on concrete arguments; Unsupported on proxies',
     'gearpy.powertrain.interp1d': 'piecewise-linear interpolation on ascending distinct knots, fork on bracket, '
-                                  'ValueError out of range (scipy doc, kind=linear); real scipy on concrete data',
+                                  'ValueError out of range (scipy doc; kind linear / previous / next); real scipy on concrete data',
     'pwm_control.min/max': 'builtin semantics through forking comparisons (no stub) unless ite-mode requested',
 }
 
@@ -149,8 +149,9 @@ class SInterp1d:
     def __call__(self, xq):
         if self.real is not None and not isinstance(xq, SR):
             return self.real(xq)
-        if self.kw:
-            raise Unsupported('interp1d options on proxies')
+        kind = self.kw.get('kind', 'linear')
+        if set(self.kw) - {'kind'} or kind not in ('linear', 'previous', 'next'):
+            raise Unsupported('interp1d options on proxies: %r' % (self.kw,))
         x, y = self.x, self.y
         if len(x) != len(y):
             raise ValueError('x and y arrays must be equal in length along interpolation axis.')
@@ -160,6 +161,15 @@ class SInterp1d:
             raise ValueError('A value in x_new is below the interpolation range.')
         if xq > x[-1]:
             raise ValueError('A value in x_new is above the interpolation range.')
+        if kind == 'previous':
+            # scipy doc: the previous point's value (the sample at the largest knot <= x_new)
+            for i in range(len(x) - 1, -1, -1):
+                if xq >= x[i]:
+                    return _Taker(y[i])
+        if kind == 'next':
+            for i in range(len(x)):
+                if xq <= x[i]:
+                    return _Taker(y[i])
         for i in range(len(x) - 1):
             if xq <= x[i + 1]:
                 slope = (y[i + 1] - y[i]) / (x[i + 1] - x[i])
